@@ -5,7 +5,6 @@ import (
 	"go/constant"
 	"go/printer"
 	"go/token"
-	"go/types"
 	"math/big"
 	"strings"
 
@@ -108,7 +107,7 @@ func pkgVarInit(p *packages.Package, name string) ast.Expr {
 
 // pkgConst returns the value of a package-level constant.
 func pkgConst(p *packages.Package, name string) constant.Value {
-	if c, ok := p.Types.Scope().Lookup(name).(*types.Const); ok {
+	if c := lookupConst(p, name); c != nil {
 		return c.Val()
 	}
 	return nil
